@@ -64,10 +64,33 @@ SIG = {
         draws=True, wfuel=None, exhausted="array[begin]", rec=True, call_fuel="S (length ARG)",
         alias="rand_select Op fuel v_array v_begin v_end v_i ds"),
 }
-FUNCTIONS = list(SIG)
+# selSPEA2 is translated by SpeaTr (below): individuals are pairs (fitness.values, fitness.wvalues) of number lists and
+# are identified with their index in the input list (the model's convention: the result is the list chosen_indices);
+# ints that are provably natural numbers (len, range / enumerate variables, counters) are Coq nats, a subtraction
+# gives a Z.  The two branch bodies of the top-level `if len(chosen_indices) < k: ... elif len(chosen_indices) > k:`
+# are separate UNITS with the interface below (names read from the enclosing function -> names handed back);
+# a unit the translator cannot translate is refused on its own (alias of the model's branch function).
+SPEA = dict(
+    name="selSPEA2", params=["individuals", "k"],
+    units=[
+        dict(key="selSPEA2.fill", gen="gen_selSPEA2_fill",
+             reads=["individuals", "k", "N", "L", "K", "fits", "chosen_indices"], writes=["chosen_indices"], draws=True,
+             alias="fill_branch Op (map fst v_individuals) v_N v_k v_fits v_chosen_indices ds"),
+        dict(key="selSPEA2.trunc", gen="gen_selSPEA2_trunc",
+             reads=["individuals", "k", "L", "chosen_indices"], writes=["chosen_indices"], draws=False,
+             alias="trunc_branch Op (map fst v_individuals) v_k v_chosen_indices"),
+    ],
+    types={"individuals": "inds", "k": "nat", "N": "nat", "L": "nat", "K": "Z", "fits": "listnat",
+           "chosen_indices": "listnat"},
+    alias="spea2 Op (map fst v_individuals) (map snd v_individuals) v_k ds")
+FUNCTIONS = list(SIG) + ["selSPEA2"] + [u["key"] for u in SPEA["units"]]
 GEN_NAME = {"_partition": "gen_partition", "_randomizedPartition": "gen_randomizedPartition",
-            "_randomizedSelect": "gen_randomizedSelect"}
-COQ_TYPE = {"Z": "Z", "T": "T", "listT": "list T", "llT": "list (list T)", "bool": "bool", "nat": "nat"}
+            "_randomizedSelect": "gen_randomizedSelect", "selSPEA2": "gen_selSPEA2",
+            "selSPEA2.fill": "gen_selSPEA2_fill", "selSPEA2.trunc": "gen_selSPEA2_trunc"}
+COQ_TYPE = {"Z": "Z", "T": "T", "listT": "list T", "llT": "list (list T)", "bool": "bool", "nat": "nat",
+            "listnat": "list nat", "llnat": "list (list nat)", "inds": "list (list T * list T)", "ind": "(list T * list T)"}
+DEFAULT = {"nat": "0%nat", "listnat": "(@nil nat)", "ind": "(@nil T, @nil T)", "listT": "(@nil T)", "T": "(n_ofZ Op 0%Z)"}
+ELT = {"listnat": "nat", "llnat": "listnat", "inds": "ind", "llT": "listT", "listT": "T"}
 EXPECTED_IMPORTS = {"random": "import"}
 
 
@@ -496,6 +519,438 @@ class FnTr(object):
         return "(* REFUSED: %s *)\n%s\n%s." % (str(why).replace("*)", "* )"), hdr, self.sig["alias"])
 
 
+# ---- selSPEA2 ------------------------------------------------------------------------------------------
+LOCAL_TYPES = {"strength_fits": "listnat", "dominating_inds": "llnat"}       # declared types of empty-list locals
+UNIT_GLOBALS = ("range", "len", "float", "sorted", "reversed", "list", "_randomizedSelect")
+
+
+def tup(names):
+    return "(%s)" % ", ".join(v(n) for n in names) if len(names) != 1 else v(names[0])
+
+
+def letpat(names):
+    return ("'" if len(names) > 1 else "") + tup(names)
+
+
+class SpeaTr(object):
+    """selSPEA2: nat-typed translation (see the comment at SPEA)."""
+
+    def __init__(self, fn, forced=None):
+        self.fn = fn
+        self.forced = forced or {}
+        self.unit_status = {}
+        self.unit_defs = []
+
+    # ---- expressions ---------------------------------------------------------------------------------
+    def coerceZ(self, x, t, node):
+        if t == "Z":
+            return x
+        if t == "nat":
+            return "(Z.of_nat %s)" % x
+        refuse(node, "an int was expected, found %s" % t)
+
+    def is_fit_attr(self, e, attr, env):
+        """X.fitness.<attr> with X an individual -> text of X"""
+        if isinstance(e, ast.Attribute) and e.attr == attr and isinstance(e.value, ast.Attribute) \
+                and e.value.attr == "fitness":
+            x, t = self.expr(e.value.value, env)
+            if t == "ind":
+                return x
+        return None
+
+    def expr(self, e, env, want=None):
+        if isinstance(e, ast.Constant):
+            if isinstance(e.value, bool) or not isinstance(e.value, int):
+                refuse(e, "constant %r outside the grammar" % (e.value,))
+            if want != "Z" and e.value >= 0:
+                return "%d%%nat" % e.value, "nat"
+            return zlit(e.value), "Z"
+        if isinstance(e, ast.Name):
+            if e.id not in env:
+                refuse(e, "name %s is not bound here" % e.id)
+            return v(e.id), env[e.id]
+        if isinstance(e, ast.BinOp):
+            if isinstance(e.op, ast.Mult) and isinstance(e.left, ast.List) and len(e.left.elts) == 1:
+                c, tc = self.expr(e.left.elts[0], env)
+                n, tn = self.expr(e.right, env)
+                if tc != "nat" or tn != "nat":
+                    refuse(e, "[c] * n outside [nat constant] * nat")
+                return "(repeat %s %s)" % (c, n), "listnat"
+            a, ta = self.expr(e.left, env)
+            b, tb = self.expr(e.right, env)
+            if isinstance(e.op, (ast.Add, ast.Mult)) and ta == "nat" and tb == "nat":
+                return "(%s %s %s)%%nat" % (a, "+" if isinstance(e.op, ast.Add) else "*", b), "nat"
+            op = {ast.Add: "+", ast.Sub: "-", ast.Mult: "*"}.get(type(e.op))
+            if op is None:
+                refuse(e, "operator %s outside the grammar" % type(e.op).__name__)
+            return "(%s %s %s)%%Z" % (self.coerceZ(a, ta, e), op, self.coerceZ(b, tb, e)), "Z"
+        if isinstance(e, ast.Compare):
+            if len(e.ops) != 1:
+                refuse(e, "chained comparison")
+            a, ta = self.expr(e.left, env)
+            b, tb = self.expr(e.comparators[0], env)
+            op = type(e.ops[0])
+            if ta == "nat" and tb == "nat":
+                m = {ast.Lt: "(Nat.ltb %s %s)" % (a, b), ast.LtE: "(Nat.leb %s %s)" % (a, b),
+                     ast.Gt: "(Nat.ltb %s %s)" % (b, a), ast.GtE: "(Nat.leb %s %s)" % (b, a),
+                     ast.Eq: "(Nat.eqb %s %s)" % (a, b), ast.NotEq: "(negb (Nat.eqb %s %s))" % (a, b)}
+            else:
+                a, b = self.coerceZ(a, ta, e), self.coerceZ(b, tb, e)
+                m = {ast.Lt: "(%s <? %s)%%Z" % (a, b), ast.LtE: "(%s <=? %s)%%Z" % (a, b),
+                     ast.Gt: "(%s <? %s)%%Z" % (b, a), ast.GtE: "(%s <=? %s)%%Z" % (b, a),
+                     ast.Eq: "(%s =? %s)%%Z" % (a, b), ast.NotEq: "(negb (%s =? %s)%%Z)" % (a, b)}
+            if op not in m:
+                refuse(e, "comparison operator outside the grammar")
+            return m[op], "bool"
+        x = self.is_fit_attr(e, "values", env)
+        if x is not None:
+            return "(fst %s)" % x, "listT"
+        x = self.is_fit_attr(e, "wvalues", env)
+        if x is not None:
+            return "(snd %s)" % x, "listT"
+        if isinstance(e, ast.Call) and not e.keywords:
+            f = e.func
+            if isinstance(f, ast.Name) and f.id == "len" and len(e.args) == 1:
+                a, ta = self.expr(e.args[0], env)
+                if ta not in ELT:
+                    refuse(e, "len of a non-list")
+                return "(length %s)" % a, "nat"
+            if isinstance(f, ast.Name) and f.id == "list" and not e.args and want in ("listnat",):
+                return DEFAULT[want], want
+            if isinstance(f, ast.Attribute) and f.attr == "sqrt" and isinstance(f.value, ast.Name) and f.value.id == "math" \
+                    and len(e.args) == 1:
+                a, ta = self.expr(e.args[0], env)
+                if ta != "nat":
+                    refuse(e, "math.sqrt of something else than a natural number")
+                return "(Z.sqrt (Z.of_nat %s))" % a, "Z"       # convention: K is only compared with ints (design_notes)
+            if isinstance(f, ast.Attribute) and f.attr == "dominates" and isinstance(f.value, ast.Attribute) \
+                    and f.value.attr == "fitness" and len(e.args) == 1 and isinstance(e.args[0], ast.Attribute) \
+                    and e.args[0].attr == "fitness":
+                a, ta = self.expr(f.value.value, env)
+                b, tb = self.expr(e.args[0].value, env)
+                if ta != "ind" or tb != "ind":
+                    refuse(e, "dominates between non-individuals")
+                return "(dominates Op (snd %s) (snd %s))" % (a, b), "bool"
+            refuse(e, "call outside the grammar")
+        if isinstance(e, ast.List) and not e.elts and want in ("listnat",):
+            return DEFAULT[want], want
+        if isinstance(e, ast.Subscript):
+            a, ta = self.expr(e.value, env)
+            if ta not in ELT:
+                refuse(e, "subscript of a value of type %s" % ta)
+            if isinstance(e.slice, ast.Slice):
+                sl = e.slice
+                if sl.upper is not None or sl.step is not None or sl.lower is None:
+                    refuse(e, "slice other than x[a:]")
+                lo, tl = self.expr(sl.lower, env)
+                if tl != "nat":
+                    refuse(e, "slice bound is not a natural number")
+                return "(skipn %s %s)" % (lo, a), ta
+            i, ti = self.expr(e.slice, env)
+            if ti != "nat":
+                refuse(e, "subscript index is not a natural number")
+            return "(nth %s %s %s)" % (i, a, DEFAULT[ELT[ta]]), ELT[ta]
+        if isinstance(e, ast.ListComp):
+            if len(e.generators) != 1 or e.generators[0].is_async or len(e.generators[0].ifs) > 1:
+                refuse(e, "comprehension with several clauses")
+            g = e.generators[0]
+            it, tgt_bind, tgt_env = self.iterable(g.iter, g.target, env)
+            env2 = dict(env)
+            env2.update(tgt_env)
+            res = it
+            if g.ifs:
+                c = self.cond(g.ifs[0], env2)
+                res = "(filter (fun x_ => %s%s) %s)" % (tgt_bind, c, res)
+            same = isinstance(e.elt, ast.Name) and isinstance(g.target, ast.Name) and e.elt.id == g.target.id
+            if same:
+                if tgt_env[g.target.id] != "nat":
+                    refuse(e, "comprehension over non-numbers")
+                return res, "listnat"
+            ew = ELT.get(want)
+            x, tx = self.expr(e.elt, env2, ew)
+            lt = {"nat": "listnat", "listnat": "llnat"}.get(tx)
+            if lt is None:
+                refuse(e, "comprehension element of type %s" % tx)
+            return "(map (fun x_ => %s%s) %s)" % (tgt_bind, x, res), lt
+        refuse(e, "expression outside the grammar")
+
+    def cond(self, e, env):
+        if isinstance(e, ast.BoolOp):
+            refuse(e, "and / or")
+        c, t = self.expr(e, env)
+        if t != "bool":
+            refuse(e, "condition is not a comparison / dominates call")
+        return c
+
+    def iterable(self, it, target, env):
+        """-> (list text, binder prefix that destructures x_ into the targets, {target: type})"""
+        def names_free(ns):
+            for n in ns:
+                if n in env:
+                    refuse(target, "loop variable %s is already bound" % n)
+        if isinstance(it, ast.Call) and isinstance(it.func, ast.Name) and not it.keywords:
+            if it.func.id == "range" and len(it.args) in (1, 2) and isinstance(target, ast.Name):
+                args = [self.expr(a, env) for a in it.args]
+                if any(t != "nat" for _, t in args):
+                    refuse(it, "range over something else than natural numbers")
+                names_free([target.id])
+                txt = "(seq 0 %s)" % args[0][0] if len(args) == 1 else "(seq %s (%s - %s))" % (args[0][0], args[1][0], args[0][0])
+                return txt, "let %s := x_ in " % v(target.id), {target.id: "nat"}
+            if it.func.id == "enumerate" and len(it.args) in (1, 2) and isinstance(target, ast.Tuple) \
+                    and len(target.elts) == 2 and all(isinstance(t, ast.Name) for t in target.elts):
+                xs, tx = self.expr(it.args[0], env)
+                if tx not in ELT:
+                    refuse(it, "enumerate of a non-list")
+                st = "0%nat"
+                if len(it.args) == 2:
+                    st, ts = self.expr(it.args[1], env)
+                    if ts != "nat":
+                        refuse(it, "enumerate start is not a natural number")
+                a, b = target.elts[0].id, target.elts[1].id
+                names_free([a, b])
+                return "(enum %s %s)" % (st, xs), "let '(%s, %s) := x_ in " % (v(a), v(b)), {a: "nat", b: ELT[tx]}
+            refuse(it, "iterable outside the grammar")
+        if isinstance(target, ast.Name):
+            xs, tx = self.expr(it, env)
+            if tx not in ELT:
+                refuse(it, "iteration over a non-list")
+            names_free([target.id])
+            return xs, "let %s := x_ in " % v(target.id), {target.id: ELT[tx]}
+        refuse(it, "iterable / loop target outside the grammar")
+
+    # ---- statements ----------------------------------------------------------------------------------
+    def assigned(self, stmts):
+        out = []
+
+        def add(n):
+            if n not in out:
+                out.append(n)
+        for s in stmts:
+            if isinstance(s, ast.Assign) and len(s.targets) == 1 and isinstance(s.targets[0], ast.Name):
+                add(s.targets[0].id)
+            elif isinstance(s, ast.Assign) and len(s.targets) == 1 and isinstance(s.targets[0], ast.Subscript) \
+                    and isinstance(s.targets[0].value, ast.Name):
+                add(s.targets[0].value.id)
+            elif isinstance(s, ast.AugAssign) and isinstance(s.target, ast.Name):
+                add(s.target.id)
+            elif isinstance(s, ast.AugAssign) and isinstance(s.target, ast.Subscript) and isinstance(s.target.value, ast.Name):
+                add(s.target.value.id)
+            elif isinstance(s, ast.Expr) and isinstance(s.value, ast.Call) and isinstance(s.value.func, ast.Attribute) \
+                    and s.value.func.attr == "append":
+                t = s.value.func.value
+                while isinstance(t, ast.Subscript):
+                    t = t.value
+                if not isinstance(t, ast.Name):
+                    refuse(s, "append target outside the grammar")
+                add(t.id)
+            elif isinstance(s, ast.Expr) and isinstance(s.value, ast.Constant):
+                pass
+            elif isinstance(s, ast.If):
+                for n in self.assigned(s.body) + self.assigned(s.orelse):
+                    add(n)
+            elif isinstance(s, ast.For):
+                if s.orelse:
+                    refuse(s, "for with else")
+                for n in self.assigned(s.body):
+                    add(n)
+            elif isinstance(s, ast.Pass):
+                pass
+            else:
+                refuse(s, "statement outside the grammar")
+        return out
+
+    def loop_targets(self, stmts):
+        out = []
+        for s in stmts:
+            for n in ast.walk(s):
+                if isinstance(n, (ast.For, ast.comprehension)):
+                    out += [x.id for x in ast.walk(n.target) if isinstance(x, ast.Name)]
+        return out
+
+    def block(self, stmts, env, tail, top=False):
+        if not stmts:
+            return tail(env)
+        s, rest = stmts[0], stmts[1:]
+        env = dict(env)
+
+        def go():
+            return self.block(rest, env, tail, top)
+
+        if isinstance(s, ast.Expr) and isinstance(s.value, ast.Constant) and isinstance(s.value.value, str):
+            return go()
+        if isinstance(s, ast.Pass):
+            return go()
+        if isinstance(s, ast.Assign) and len(s.targets) == 1 and isinstance(s.targets[0], ast.Name):
+            n = s.targets[0].id
+            want = env.get(n) or SPEA["types"].get(n) or LOCAL_TYPES.get(n)
+            x, t = self.expr(s.value, env, want)
+            if want is not None and want != t:
+                refuse(s, "name %s gets a value of type %s, declared / previously %s" % (n, t, want))
+            if n in self.loop_targets(self.fn.body) and n not in env:
+                pass
+            env[n] = t
+            return "let %s := %s in\n%s" % (v(n), x, go())
+        if isinstance(s, ast.AugAssign) and isinstance(s.op, ast.Add):
+            t = s.target
+            if isinstance(t, ast.Subscript) and isinstance(t.value, ast.Name) and not isinstance(t.slice, ast.Slice):
+                a = t.value.id
+                if env.get(a) != "listnat":
+                    refuse(s, "x[i] += e on something else than a list of natural numbers")
+                i, ti = self.expr(t.slice, env)
+                x, tx = self.expr(s.value, env)
+                if ti != "nat" or tx != "nat":
+                    refuse(s, "x[i] += e with a non-natural index / increment")
+                return "let %s := set_nth %s %s (nth %s %s 0%%nat + %s)%%nat in\n%s" % (v(a), v(a), i, i, v(a), x, go())
+            refuse(s, "augmented assignment outside the grammar")
+        if isinstance(s, ast.Expr) and isinstance(s.value, ast.Call) and isinstance(s.value.func, ast.Attribute) \
+                and s.value.func.attr == "append" and len(s.value.args) == 1 and not s.value.keywords:
+            t = s.value.func.value
+            x, tx = self.expr(s.value.args[0], env)
+            if isinstance(t, ast.Subscript) and isinstance(t.value, ast.Name) and not isinstance(t.slice, ast.Slice) \
+                    and env.get(t.value.id) == "llnat" and tx == "nat":
+                a = t.value.id
+                i, ti = self.expr(t.slice, env)
+                if ti != "nat":
+                    refuse(s, "index is not a natural number")
+                return "let %s := set_nth %s %s (nth %s %s (@nil nat) ++ [%s]) in\n%s" % (v(a), v(a), i, i, v(a), x, go())
+            refuse(s, "append outside x[i].append(natural number)")
+        if isinstance(s, ast.For):
+            if any(isinstance(n, (ast.Break, ast.Continue, ast.Return)) for n in ast.walk(s)):
+                refuse(s, "break / continue / return inside a for")
+            it, bind, tenv = self.iterable(s.iter, s.target, env)
+            names = self.assigned(s.body)
+            state = [n for n in names if n in env]
+            for n in names:
+                if n not in env and n in self.reads_after(s.body, rest):
+                    refuse(s, "name %s is first bound inside a loop and used afterwards" % n)
+            if not state:
+                refuse(s, "loop without effect on the variables bound before it")
+            env2 = dict(env)
+            env2.update(tenv)
+            body = self.block(s.body, env2, lambda e2: tup(state))
+            return "let %s := for_ %s (fun x_ st_ => %slet %s := st_ in\n%s) %s in\n%s" % (
+                letpat(state), it, bind, letpat(state), body, tup(state), go())
+        if isinstance(s, ast.If):
+            if top:
+                return self.unit_chain(s, rest, env, tail)
+            if has_return(s.body) or has_return(s.orelse):
+                refuse(s, "return inside an if")
+            c = self.cond(s.test, env)
+            names = self.assigned(s.body + s.orelse)
+            for n in names:
+                if n not in env:
+                    refuse(s, "name %s is first bound inside an if" % n)
+            if not names:
+                return go()
+            a = self.block(s.body, env, lambda e2: tup(names))
+            b = self.block(s.orelse, env, lambda e2: tup(names))
+            return "let %s := if %s then (\n%s\n) else (\n%s\n) in\n%s" % (letpat(names), c, a, b, go())
+        if isinstance(s, ast.Return) and top:
+            if rest:
+                refuse(rest[0], "statement after return")
+            e = s.value
+            if isinstance(e, ast.ListComp) and len(e.generators) == 1 and not e.generators[0].ifs \
+                    and isinstance(e.generators[0].target, ast.Name) and isinstance(e.generators[0].iter, ast.Name) \
+                    and isinstance(e.elt, ast.Subscript) and isinstance(e.elt.value, ast.Name) \
+                    and e.elt.value.id == "individuals" and isinstance(e.elt.slice, ast.Name) \
+                    and e.elt.slice.id == e.generators[0].target.id and env.get(e.generators[0].iter.id) == "listnat" \
+                    and env.get("individuals") == "inds":
+                # individuals are identified with their indices (the model's convention)
+                return "(%s, ds)" % v(e.generators[0].iter.id)
+            refuse(s, "return other than [individuals[i] for i in <index list>]")
+        refuse(s, "statement outside the grammar")
+
+    def reads_after(self, body, rest):
+        return [n.id for s in rest for n in ast.walk(s) if isinstance(n, ast.Name) and isinstance(n.ctx, ast.Load)]
+
+    # ---- the two branch units ----------------------------------------------------------------------------
+    def unit_chain(self, s, rest, env, tail):
+        units = SPEA["units"]
+        if not (len(s.orelse) == 1 and isinstance(s.orelse[0], ast.If) and not s.orelse[0].orelse):
+            refuse(s, "the top-level if is not `if ...: elif ...:` without else")
+        if self.unit_defs:
+            refuse(s, "a second top-level if")
+        branches = [(s.test, s.body), (s.orelse[0].test, s.orelse[0].body)]
+        conds = [self.cond(t, env) for t, _ in branches]
+        calls = []
+        for u, (_, body) in zip(units, branches):
+            for r in u["reads"]:
+                if env.get(r) != SPEA["types"][r]:
+                    refuse(s, "the branch interface expects %s : %s to be bound here" % (r, SPEA["types"][r]))
+            assigned_in = set()
+            for st in body:
+                for n in ast.walk(st):
+                    if isinstance(n, ast.Name) and isinstance(n.ctx, (ast.Store, ast.Del)):
+                        assigned_in.add(n.id)
+            for st in body:
+                for n in ast.walk(st):
+                    if isinstance(n, ast.Name) and isinstance(n.ctx, ast.Load) and n.id not in u["reads"] \
+                            and n.id not in assigned_in and n.id not in UNIT_GLOBALS:
+                        refuse(n, "the branch reads %s, which is outside its declared interface" % n.id)
+                    if isinstance(n, (ast.Return, ast.Global, ast.Nonlocal, ast.Lambda, ast.Yield)):
+                        refuse(n, "construct outside the grammar inside a branch")
+            hdr = "Definition %s %s%s : %s :=" % (
+                u["gen"], " ".join("(%s : %s)" % (v(r), COQ_TYPE[SPEA["types"][r]]) for r in u["reads"]),
+                " (ds : list Z)" if u["draws"] else "", "list nat * list Z" if u["draws"] else "list nat")
+            why = self.forced.get(u["key"])
+            text = None
+            if why is None:
+                try:
+                    uenv = {r: SPEA["types"][r] for r in u["reads"]}
+                    text = self.block(body, uenv, lambda e2: ("(%s, ds)" if u["draws"] else "%s") % tup(u["writes"]))
+                except Refuse as e:
+                    why = e
+            if why is not None:
+                self.unit_defs.append("(* REFUSED: %s *)\n%s\n%s." % (str(why).replace("*)", "* )"), hdr, u["alias"]))
+            else:
+                self.unit_defs.append("%s\n%s." % (hdr, text))
+            self.unit_status[u["key"]] = why
+            call = "%s %s%s" % (u["gen"], " ".join(v(r) for r in u["reads"]), " ds" if u["draws"] else "")
+            calls.append(call if u["draws"] else "(%s, ds)" % call)
+        w = units[0]["writes"]
+        env = dict(env)
+        for n in list(env):
+            if n not in SPEA["params"] and n not in w:
+                del env[n]                     # the branches may rebind any other local
+        return "let '(%s, ds) := if %s then %s else if %s then %s else (%s, ds) in\n%s" % (
+            tup(w), conds[0], calls[0], conds[1], calls[1], tup(w), self.block(rest, env, tail, True))
+
+    def translate(self):
+        fn = self.fn
+        a = fn.args
+        if a.vararg or a.kwarg or a.kwonlyargs or a.defaults or a.posonlyargs or fn.decorator_list:
+            refuse(fn, "parameter list / decorators outside the grammar")
+        if [x.arg for x in a.args] != SPEA["params"]:
+            refuse(fn, "parameters %r differ from the signature table" % [x.arg for x in a.args])
+        for n in ast.walk(fn):
+            if isinstance(n, (ast.Global, ast.Nonlocal, ast.Lambda, ast.FunctionDef, ast.Try, ast.With, ast.Yield,
+                              ast.YieldFrom, ast.GeneratorExp, ast.Raise, ast.Assert)) and n is not fn:
+                refuse(n, "construct outside the grammar")
+        if not fn.body or not isinstance(fn.body[-1], ast.Return):
+            refuse(fn, "the body does not end with a return")
+        env = {"individuals": "inds", "k": "nat"}
+        body = self.block(fn.body, env, lambda e2: refuse(fn, "the body may fall off its end"), True)
+        if len(self.unit_defs) != len(SPEA["units"]):
+            refuse(fn, "the top-level if / elif with the two archive branches was not found")
+        return "%s\n%s." % (self.header(), body)
+
+    @staticmethod
+    def header():
+        return "Definition gen_selSPEA2 (v_individuals : list (list T * list T)) (v_k : nat) (ds : list Z) : list nat * list Z :="
+
+    @staticmethod
+    def alias_all(why):
+        out = []
+        for u in SPEA["units"]:
+            hdr = "Definition %s %s%s : %s :=" % (
+                u["gen"], " ".join("(%s : %s)" % (v(r), COQ_TYPE[SPEA["types"][r]]) for r in u["reads"]),
+                " (ds : list Z)" if u["draws"] else "", "list nat * list Z" if u["draws"] else "list nat")
+            out.append("(* REFUSED: %s *)\n%s\n%s." % (str(why).replace("*)", "* )"), hdr, u["alias"]))
+        out.append("(* REFUSED: %s *)\n%s\n%s." % (str(why).replace("*)", "* )"), SpeaTr.header(), SPEA["alias"]))
+        return out
+
+
+
 HEADER = """(* GENERATED by harness/c07_py2coq.py from %s — do not edit, never committed.
    %s *)
 From Coq Require Import List ZArith Bool.
@@ -547,7 +1002,7 @@ def translate_source(text, origin="deap/tools/emo.py", forced=None):
     except (SyntaxError, Refuse) as e:
         tree, seen, modfail = None, {}, e
     out = []
-    for name in FUNCTIONS:
+    for name in SIG:
         why = None
         tr = FnTr(name, None)
         if modfail is not None:
@@ -570,6 +1025,35 @@ def translate_source(text, origin="deap/tools/emo.py", forced=None):
         if why is not None:
             out.append(tr.alias(why))
         status[name] = why
+    # selSPEA2 and its two branch units
+    why, sp = None, None
+    if modfail is not None:
+        why = modfail
+    elif "selSPEA2" in forced:
+        why = forced["selSPEA2"]
+    elif "math" in seen and seen["math"] != ("import", "math"):
+        why = Refuse("Module", "the name `math` is not `import math`")
+    else:
+        fns = [n for n in tree.body if isinstance(n, ast.FunctionDef) and n.name == "selSPEA2"]
+        if len(fns) != 1 or seen.get("selSPEA2", ("",))[0] != "def" or seen["selSPEA2"][1] != fns[0].lineno:
+            why = Refuse("Module", "selSPEA2 is not defined exactly once at module level")
+        else:
+            sp = SpeaTr(fns[0], forced)
+            try:
+                text = sp.translate()
+                out += sp.unit_defs + [text]
+                status["selSPEA2"] = None
+                for u in SPEA["units"]:
+                    status[u["key"]] = sp.unit_status[u["key"]]
+            except Refuse as e:
+                why = e
+            except RecursionError:
+                why = Refuse("FunctionDef", "translator recursion limit")
+    if why is not None:
+        out += SpeaTr.alias_all(why)
+        status["selSPEA2"] = why
+        for u in SPEA["units"]:
+            status[u["key"]] = why
     summary = "; ".join("%s: %s" % (f, "regenerated" if status[f] is None else "REFUSED") for f in FUNCTIONS)
     return HEADER % (origin, summary) + "\n\n".join(out) + "\n\nEnd Gen.\n", status
 
